@@ -73,7 +73,7 @@ def check(ctx):
                  "ExpectedAngleBracketGenerics": ["TypeSubstitutes::parse_path_param_mapping"], "InvalidFromType": ["TypeSubstitutes::parse_path_param_mapping"],
                  "InvalidToType": ["TypeSubstitutes::parse_path_param_mapping"], "NoMatchingFromType": []}
     for v in q.variants_of(P, "TypeSubstitutionErrorKind", S) or []:
-        where = sorted({cshort(b["path"]) for b, n in sites.get(v, [])})
+        where = sorted({cshort(o) for b, n in sites.get(v, []) for o in q.owners(ctx, b["path"], (S,))})       # a private helper produces on behalf of its callers
         if v not in exp_where:
             ctx.bad("C16.4", "error-kind/" + v, "", "new TypeSubstitutionErrorKind::%s without reviewed provenance" % v)
             continue
